@@ -6,7 +6,7 @@ From TSG Require Import Model.Run Model.Stdlib Model.IdxBridge Proofs.BaseFacts 
   Proofs.SL2Force Proofs.SL2Expr Proofs.SL2Stmt Proofs.SL2Whole Proofs.ScPermSim Proofs.ScPermSwap Proofs.ScPermExec Proofs.BlockPermRen Proofs.BlockPermGraph Proofs.BlockPermExec Proofs.SLAny Proofs.BlockPermStd
   Proofs.SLFailGraph Proofs.SLFailExpr Proofs.SLFailStmt Proofs.SLF2Expr Proofs.SLF2Store Proofs.SLF2File Proofs.IdxRealExample.
 From TSG Require Props.C02.
-Require Import P04.
+Require Import P04sel.
 Import ListNotations.
 Open Scope N_scope.
 Definition r := pc_123_run. Definition t := pc_123_tree.
